@@ -224,6 +224,166 @@ def check_structure(run, ir, endo, exo, order, intercept, dof, ncol, miss):
     run.ok(key)
 
 
+def _sim_setup(ir, endo, exo, order, intercept, ncol, values=None):
+    """estimate on concrete data (real code, floats); data for the simulation: the same series plus residual series"""
+    db, span = _build_db(ir, endo, exo, ncol, frozenset())
+    model = ir.RedVAR(list(endo), exogenous_names=list(exo) or None, order=order, intercept=intercept)
+    model.estimate(db, span, omit_missing=True)
+    start = ir.qq(2000, 1)
+    sim_span = (start + order) >> (start + ncol - 1)
+    dbs = ir.Databox()
+    for i, n in enumerate(list(endo) + list(exo)):
+        dbs[n] = ir.Series(start=start, values=tuple((values or {}).get(f"{n}__{j}", 0.3 + 0.17 * ((3 * i + 5 * j) % 7) - 0.05 * j) for j in range(ncol)))
+    for i, n in enumerate(endo):
+        dbs["res_" + n] = ir.Series(start=start + order, values=tuple((values or {}).get(f"res_{n}__{j}", 0.05 * ((2 * i + j) % 3) - 0.04) for j in range(order, ncol)))
+    return model, dbs, sim_span, start
+
+
+def check_simulate(run, ir, endo, exo, order, intercept, ncol=6):
+    """RedVAR.simulate lifted at fords.simulators.simulate_flat: with arbitrary initial conditions, exogenous data and residuals the simulated
+    path is the VAR recursion y_t = sum_l A_l y_{t-l} + B x_t + c + res_t -- hence, with the estimated residuals, the original data"""
+    from irispie.red_vars import _simulators as rs
+    from irispie.fords import simulators as fs
+    from irispie.dataslates import _variants as dv
+    key = f"simulate:endo={endo}:exo={exo}:order={order}:intercept={intercept}"
+    case = dict(kind="simulate", endo=list(endo), exo=list(exo), order=order, intercept=intercept, ncol=ncol)
+    finding = f"redvar:simulate:order={order}:exo={len(exo)}"
+    model, dbs, sim_span, start = _sim_setup(ir, endo, exo, order, intercept, ncol)
+    cap = {}
+    real = fs.simulate_flat
+
+    real_exo = rs._simulate_exogenous_impact
+
+    def ensure_lifted(ds_v):
+        var = ds_v._variants[0]
+        if "inp" in cap:
+            return var
+        data = var.data
+        names = tuple(ds_v.names)
+        periods = tuple(ds_v.periods)
+        label = lambda j: str(periods[j] - start)
+        # initial conditions of the endogenous variables (before the simulation span), exogenous data and residuals inside it
+        k_of = lambda j: periods[j] - start
+        where = lambda nm, j: (nm in endo and k_of(j) < order) or (nm in exo) or nm.startswith("res_")
+        obj, syms = lift_matrix(data, names, where=where, col_label=label)
+        var.data = obj
+        cap.update(names=names, periods=periods, inp=obj.copy(), syms=syms, float_data=data)
+        return var
+
+    def lifted_exo(model_v, ds_v):
+        ensure_lifted(ds_v)          # the exogenous impact B x_t is computed before simulate_flat, from the same dataslate
+        return real_exo(model_v, ds_v)
+
+    def lifted(model_v, ds_v, frame, **kw):
+        var = ensure_lifted(ds_v)
+        try:
+            r = real(model_v, ds_v, frame, **kw)
+            cap["out"] = np.array(var.data, dtype=object)
+        finally:
+            var.data = S.shadow_float(var.data) if "out" in cap else cap["float_data"]
+        return r
+    proxy = npproxy.Proxy()
+    try:
+        with npproxy.installed(proxy, fs, rs, extra=[(rs._simulators, "simulate_flat", lifted), (rs, "_simulate_exogenous_impact", lifted_exo)]), \
+                npproxy.installed(npproxy.Proxy(object_alloc=False), dv), S.Path() as path:
+            model.simulate(dbs, sim_span)
+    except S.SymbolicBranchError:
+        raise
+    except Exception as exc:
+        run.counterexample(key, finding + ":raises", f"RedVAR.simulate raises {type(exc).__name__}: {str(exc)[:140]}", dict(case, values={}))
+        return
+    if "out" not in cap:
+        run.unknown(key, "simulate_flat was not reached")
+        return
+    names, periods, out, inp = cap["names"], cap["periods"], cap["out"], cap["inp"]
+    row = {n: i for i, n in enumerate(names)}
+    col = {periods[j] - start: j for j in range(len(periods))}
+    sm = model.get_system_matrices()
+    A = np.asarray(sm.A, dtype=float)
+    B = np.asarray(sm.B, dtype=float) if exo else None
+    c = np.asarray(sm.c, dtype=float).reshape(-1) if intercept and sm.c is not None else None
+    ne = len(endo)
+    ypath = {}           # (name, k) -> term of the oracle recursion
+    for n in endo:
+        for k in range(order):
+            ypath[(n, k)] = inp[row[n], col[k]]
+    claims = []
+    for k in range(order, ncol):
+        for e, n in enumerate(endo):
+            want = S.const(0)
+            for l in range(1, order + 1):
+                for e2, n2 in enumerate(endo):
+                    want = want + S.float_fraction(float(A[e, (l - 1) * ne + e2])) * ypath[(n2, k - l)]
+            for x_i, xn in enumerate(exo):
+                want = want + S.float_fraction(float(B[e, x_i])) * inp[row[xn], col[k]]
+            if c is not None:
+                want = want + S.float_fraction(float(c[e]))
+            want = want + inp[row["res_" + n], col[k]]
+            ypath[(n, k)] = want
+        for e, n in enumerate(endo):
+            got = out[row[n], col[k]]
+            if isinstance(got, float) and math.isnan(got):
+                run.counterexample(key, finding, f"simulated {n} missing at period {k}", dict(case, values={}))
+                return
+            claims.append((f"{n}@{k}", S.const(got).t, S.const(ypath[(n, k)]).t))
+    syms = cap["syms"]
+    box = [z3.And(s.t >= -1, s.t <= 1) for s in syms.values()]
+    assume = box + [path.condition()]
+    r0, _ = run.check_sat(assume, timeout_ms=30000)
+    if r0 != "sat":
+        run.unknown(key, f"reachability witness {r0}")
+        return
+    run.reach_ok += 1
+    tol = Fraction(1, 10 ** 8)
+    viol = z3.Or(*[z3.Or(a - b > tol, a - b < -tol) for _, a, b in claims])
+    res, mdl = run.check_sat(assume + [viol], timeout_ms=60000)
+    if res == "unsat":
+        if len(run.samples) < 12:
+            run.samples.append({"obligation": key, "verdict": "unsat: the simulated path is the VAR recursion on initial conditions, exogenous data and residuals (1e-8) for all inputs in the unit box",
+                                "claims": len(claims), "example": str(z3.simplify(claims[-1][1]))[:160]})
+        run.ok(key)
+    elif res == "sat":
+        bad = []
+        for labl, a, b in claims:
+            d = mdl.eval(a - b, model_completion=True)
+            fv = Fraction(d.numerator_as_long(), d.denominator_as_long())
+            if abs(fv) > tol:
+                bad.append((labl, float(fv)))
+        vals = model_values(mdl, sorted(syms))
+        run.counterexample(key, finding, f"simulate does not follow the VAR recursion: {bad[:4]}", dict(case, bad=bad[:6], values={k: [v.numerator, v.denominator] for k, v in vals.items()}))
+    else:
+        run.unknown(key, f"solver {res}")
+
+
+def _replay_simulate(ir, case):
+    endo, exo, order, intercept, ncol = tuple(case["endo"]), tuple(case["exo"]), case["order"], case["intercept"], case["ncol"]
+    vals = {k: float(Fraction(a, b)) for k, (a, b) in case.get("values", {}).items()}
+    model, dbs, sim_span, start = _sim_setup(ir, endo, exo, order, intercept, ncol, values=vals)
+    try:
+        out = model.simulate(dbs, sim_span)
+    except Exception as exc:
+        return True, f"simulate raises {type(exc).__name__}: {exc}"
+    out = out[0] if isinstance(out, tuple) else out
+    sm = model.get_system_matrices()
+    A = np.asarray(sm.A, dtype=float)
+    B = np.asarray(sm.B, dtype=float) if exo else None
+    c = np.asarray(sm.c, dtype=float).reshape(-1) if intercept and sm.c is not None else None
+    g = lambda box, n, k: float(np.asarray(box[n].get_data(start + k)).reshape(-1)[0])
+    y = {(n, k): g(dbs, n, k) for n in endo for k in range(order)}
+    worst, msg = 0.0, "simulated path follows the recursion"
+    ne = len(endo)
+    for k in range(order, ncol):
+        for e, n in enumerate(endo):
+            w = sum(A[e, (l - 1) * ne + e2] * y[(n2, k - l)] for l in range(1, order + 1) for e2, n2 in enumerate(endo))
+            w += sum(B[e, i] * g(dbs, xn, k) for i, xn in enumerate(exo)) + (c[e] if c is not None else 0.0) + g(dbs, "res_" + n, k)
+            y[(n, k)] = w
+        for n in endo:
+            d = abs(g(out, n, k) - y[(n, k)])
+            if not d <= worst:
+                worst, msg = (d if d == d else float("inf")), f"{n}@{k}: simulated {g(out, n, k)!r} vs recursion {y[(n, k)]!r}"
+    return worst > 1e-7, msg
+
+
 def main(run):
     ir = load_irispie()
     run.extra["proxy_selftest_checks"] = npproxy.selftest()
@@ -233,8 +393,11 @@ def main(run):
     run.bounds["structures"] = ("1-2 endogenous, 0-1 exogenous variables, order 1-2, intercept on/off, dof_correction on/off, 6 periods, masks: none / one interior / first / last / "
                                 "exogenous missing; one variant")
     run.bounds["values"] = "every data cell an independent real; exact polynomial identities (no tolerance)"
-    run.stubs += ["numpy.linalg.solve in ordinary_least_squares -> fresh beta with the contract Mx beta' = My"]
-    run.outside += ["'noise-free data return the generating VAR' (needs uniqueness of the solve, i.e. LAPACK)", "prior dummy observations", "simulate reproduces the data",
+    run.stubs += ["numpy.linalg.solve in ordinary_least_squares -> fresh beta with the contract Mx beta' = My",
+                  "simulate: coefficients come from a concrete estimate (floats); initial conditions, exogenous data and residuals are symbols"]
+    run.functions_encoded += ["red_vars._simulators.{Inlay.simulate,_simulate,_simulate_exogenous_impact}, fords.simulators.{simulate_flat,get_init_xi}, red_vars._variants (companion matrices), "
+                              "red_vars._invariants._populate_solution_vectors (executed)"]
+    run.outside += ["'noise-free data return the generating VAR' (needs uniqueness of the solve, i.e. LAPACK)", "prior dummy observations",
                     "companion-form mean/eigenvalues/acov (LAPACK eig)", "multiple variants, resampling"]
     for args in _structures(run.tier):
         try:
@@ -243,11 +406,21 @@ def main(run):
             run.unknown(f"var:{args[:5]}", exc)
         except Exception as exc:
             run.error(f"var:{args[:5]}:{sorted(args[6])}", exc)
+    for (endo, exo, order, intercept) in ((("a",), (), 1, True), (("a", "b"), (), 1, True), (("a",), (), 2, True), (("a", "b"), (), 2, False), (("a", "b"), ("x",), 1, True),
+                                          (("a",), ("x",), 2, True), (("a", "b"), ("x",), 2, True)) + (((("a", "b"), (), 3, True), (("a",), ("x",), 3, False)) if run.tier == "thorough" else ()):
+        try:
+            check_simulate(run, ir, endo, exo, order, intercept, ncol=order + 2 + order * len(endo) + len(exo) + 1)
+        except S.SymbolicBranchError as exc:
+            run.unknown(f"simulate:{endo}:{exo}:{order}", exc)
+        except Exception as exc:
+            run.error(f"simulate:{endo}:{exo}:{order}", exc)
     run.extra["exhaustive"] = True
 
 
 def replay(case):
     ir = load_irispie()
+    if case.get("kind") == "simulate":
+        return _replay_simulate(ir, case)
     endo, exo, order, intercept, dof, ncol = tuple(case["endo"]), tuple(case["exo"]), case["order"], case["intercept"], case["dof"], case["ncol"]
     miss = frozenset(tuple(m) for m in case["miss"])
     vals = {k: float(Fraction(a, b)) for k, (a, b) in case.get("values", {}).items()}
